@@ -159,6 +159,14 @@ func shapedPath(root, name, shape string) (string, error) {
 			}
 		}
 		return up + "/" + name, nil
+	case "rel_parent":
+		return name, nil
+	case "rel_dotparent":
+		return "./" + name, nil
+	case "rel_updown":
+		return "reports/../" + name, nil
+	case "rel_sibling":
+		return "../" + name, nil
 	case "dot":
 		return ".", nil
 	case "dotslash":
@@ -654,7 +662,11 @@ func runOnce(c C18Case) verdict {
 
 	// a path that is "." makes that directory the working directory of the process (cases run
 	// one at a time); restored when the case is over
-	if wdDir := map[bool]string{true: pluginDirName, false: confDirName}[isDotShape(c.PluginPath)]; isDotShape(c.PluginPath) || isDotShape(c.ConfPath) {
+	wdDir, needWd := chdirFor(c.PluginPath, pluginDirName)
+	if !needWd {
+		wdDir, needWd = chdirFor(c.ConfPath, confDirName)
+	}
+	if needWd {
 		old, err := os.Getwd()
 		if err != nil {
 			return infra("%v", err)
@@ -1796,8 +1808,9 @@ func TestExh_C18(t *testing.T) {
 		Listen:  true,
 		Exts:    []Ext{{Idx: "10", Name: "e0", Join: 0, Leave: 2}, {Idx: "20", Name: "e1", Join: 1, Leave: len(ops) + 1}, {Idx: "05", Name: "e2", Join: 3, Leave: 4}},
 	})
-	// the plugin directory, or the drop-in directory, is the working directory: ".", "./", "./."
-	for _, shape := range []string{"dot", "dotslash", "dotdot"} {
+	// the plugin directory, or the drop-in directory, is the working directory: ".", "./", "./.";
+	// or it is given relative to its parent ("p", "./p", "reports/../p") or to a sibling ("../p")
+	for _, shape := range []string{"dot", "dotslash", "dotdot", "rel_parent", "rel_dotparent", "rel_updown", "rel_sibling"} {
 		for _, which := range []int{0, 1} {
 			c := C18Case{
 				Plugins: []Plugin{{Idx: "10", Stem: "a", Behav: bOK, Mode: 0o755}, {Idx: "20", Stem: "b", Behav: bOK, Mode: 0o700}},
